@@ -22,6 +22,8 @@ type Clause struct {
 type LoopSpec struct {
 	Index string // ghost name of the iteration index of a range loop
 	Invs  []Clause
+	After []Clause // must hold whenever the loop is left other than by return/panic
+	Step  []Clause // the body's own contract: holds whenever one iteration is left (old = state at its start)
 }
 
 // Contract is the parsed form of one `//@ func` / `//@ closure` block.
@@ -42,6 +44,8 @@ type Contract struct {
 	Exits    []Clause // must hold on every exit, normal or panicking
 	Lets     []Clause // let name: expr  (abbreviations evaluated in the pre-state)
 	Assigns  []string
+	Modifies []string // object-level frame: "p.f" entries (field f of the object parameter p denotes), or "nothing"
+	HasMod   bool
 	Pure     bool
 	Trusted  bool // contract assumed, body not verified
 	Loops    map[int]*LoopSpec
@@ -387,6 +391,13 @@ func (db *ContractDB) loadFile(fn string) error {
 			for _, a := range strings.Split(rest, ",") {
 				cur.Assigns = append(cur.Assigns, strings.TrimSpace(a))
 			}
+		case "modifies":
+			cur.HasMod = true
+			for _, a := range strings.Split(rest, ",") {
+				if a = strings.TrimSpace(a); a != "" && a != "nothing" {
+					cur.Modifies = append(cur.Modifies, a)
+				}
+			}
 		case "opt":
 			kv := strings.SplitN(rest, "=", 2)
 			if len(kv) == 2 {
@@ -406,7 +417,7 @@ func (db *ContractDB) loadFile(fn string) error {
 			} else {
 				cur.FnParams, cur.FnResults = ps, rs
 			}
-		case "requires", "ensures", "case", "canary", "let", "invariant", "exits", "exec-ensures", "exec-requires", "fn-ensures", "exec-canary", "completes":
+		case "requires", "ensures", "case", "canary", "let", "invariant", "after", "step", "exits", "exec-ensures", "exec-requires", "fn-ensures", "exec-canary", "completes":
 			cl, err := parseClause(rest, fn, ln+1)
 			if err != nil {
 				return err
@@ -443,6 +454,16 @@ func (db *ContractDB) loadFile(fn string) error {
 					return fmt.Errorf("%s:%d: invariant outside a loop block", fn, ln+1)
 				}
 				curLoop.Invs = append(curLoop.Invs, cl)
+			case "step":
+				if curLoop == nil {
+					return fmt.Errorf("%s:%d: step outside a loop block", fn, ln+1)
+				}
+				curLoop.Step = append(curLoop.Step, cl)
+			case "after":
+				if curLoop == nil {
+					return fmt.Errorf("%s:%d: after outside a loop block", fn, ln+1)
+				}
+				curLoop.After = append(curLoop.After, cl)
 			}
 		case "panics":
 			r := strings.TrimSpace(strings.TrimPrefix(rest, "when"))
